@@ -16,6 +16,9 @@ import (
 	"runtime"
 	"strconv"
 	"strings"
+	"sync"
+	"syscall"
+	"io"
 	"time"
 
 	"github.com/benbjohnson/litestream"
@@ -53,6 +56,64 @@ type childEnv struct {
 	lastLocal  ltx.TXID
 	lastRemote ltx.TXID
 	restoreN   int
+
+	gateWanted bool // script backloggate: the replica client is a gateKillClient
+	gate       *gateKillClient
+}
+
+// gateKillClient (script backloggate): the process dies at the one instant a kill sweep over system
+// calls cannot aim at - while the upload of an EARLIER level-0 file of a backlog has not started to be
+// written and the upload of a LATER one has completed. The first level-0 write after arming is held
+// back for up to 300 ms; if a write of a later TXID completes meanwhile (uploads of one batch running
+// concurrently: seeds C03d, C05f), the process kills itself there. With sequential uploads nothing
+// else starts while the first write is held, and the script runs to its end.
+type gateKillClient struct {
+	*file.ReplicaClient
+	mu      sync.Mutex
+	armed   bool
+	holding bool
+	held    ltx.TXID
+	done    chan ltx.TXID
+}
+
+func (g *gateKillClient) WriteLTXFile(ctx context.Context, level int, minTXID, maxTXID ltx.TXID, r io.Reader) (*ltx.FileInfo, error) {
+	if level != 0 {
+		return g.ReplicaClient.WriteLTXFile(ctx, level, minTXID, maxTXID, r)
+	}
+	g.mu.Lock()
+	if g.armed && !g.holding {
+		g.armed, g.holding, g.held = false, true, minTXID
+		g.done = make(chan ltx.TXID, 16)
+		done := g.done
+		g.mu.Unlock()
+		deadline := time.After(300 * time.Millisecond)
+	wait:
+		for {
+			select {
+			case t := <-done:
+				if t > minTXID {
+					_ = syscall.Kill(os.Getpid(), syscall.SIGKILL)
+					select {}
+				}
+			case <-deadline:
+				break wait
+			}
+		}
+		g.mu.Lock()
+		g.holding = false
+		g.mu.Unlock()
+		return g.ReplicaClient.WriteLTXFile(ctx, level, minTXID, maxTXID, r)
+	}
+	holding, done := g.holding, g.done
+	g.mu.Unlock()
+	info, err := g.ReplicaClient.WriteLTXFile(ctx, level, minTXID, maxTXID, r)
+	if holding && err == nil {
+		select {
+		case done <- minTXID:
+		default:
+		}
+	}
+	return info, err
 }
 
 func (e *childEnv) dbPath() string  { return filepath.Join(e.dir, dbName) }
@@ -109,7 +170,12 @@ func (e *childEnv) openDB() {
 	db.MonitorInterval = 0
 	db.Logger = QuietLogger()
 	c := file.NewReplicaClient(filepath.Join(e.dir, replicaName))
-	db.Replica = litestream.NewReplicaWithClient(db, c)
+	if e.gateWanted {
+		e.gate = &gateKillClient{ReplicaClient: c}
+		db.Replica = litestream.NewReplicaWithClient(db, e.gate)
+	} else {
+		db.Replica = litestream.NewReplicaWithClient(db, c)
+	}
 	db.Replica.MonitorEnabled = false
 	c.Replica = db.Replica
 	must(db.Open(), "db.Open")
@@ -539,6 +605,7 @@ func runChild(script, dir string, seed int64, prm []int) {
 		}
 		return
 	}
+	e.gateWanted = script == "backloggate"
 	e.openApp()
 	e.openDB()
 	rounds := p(0, 3)
@@ -575,6 +642,23 @@ func runChild(script, dir string, seed int64, prm []int) {
 			e.write(1+i%2, 80)
 			e.sync()
 		}
+		e.upload()
+		e.write(1, 60)
+		e.sync()
+		e.upload()
+		e.restore(e.lastRemote)
+	case "backloggate":
+		// as backlog; the process dies on its own if a later file of the batch is published before an earlier one
+		e.write(2, 100)
+		e.sync()
+		e.upload()
+		for i := 0; i < 4; i++ {
+			e.write(1+i%2, 80)
+			e.sync()
+		}
+		e.gate.mu.Lock()
+		e.gate.armed = true
+		e.gate.mu.Unlock()
 		e.upload()
 		e.write(1, 60)
 		e.sync()
